@@ -214,20 +214,23 @@ def main():
     else:
         errors.append("build failed: " + "\n".join(c.notes)[-3000:])
 
-    # thorough tier, informational: the 1 GiB reproduction of the quote.c signed-counter overflow (notes/C20.md, defect 1).
-    # It becomes a KNOWN-FINDING line as soon as known_findings.json lists an open entry with id C20-quote-int; until then it
-    # is recorded in the evidence only (the quantifier of C20 stops at declared lengths near 2^31, real inputs stay small).
-    if c.tier == "thorough" and s.ok and not c.replay:
+    # quote() at the top of its length range (1 GiB input, ~3.5 GiB, ~8 s): run in the thorough tier, and in any tier as part of
+    # the failing-input search when a proof obligation is broken (e.g. the counters of quote.c are signed again: pre-26e354b).
+    big_fail = None
+    if s.ok and not c.replay and (c.tier == "thorough" or not ok):
         try:
             qb = s.cc(os.path.join(VERIF, "harness/c20_quote_big.c"), os.path.join(s.dir, "h_c20_quote_big"), None, "quote.o stralloc.a str.a error.a")
-            rc, o = sh(qb, cwd=s.dir, env={"ASAN_OPTIONS": "detect_leaks=0:max_allocation_size_mb=8000"}, timeout=600)
-            m = re.search(r"[^\n]*runtime error: signed integer overflow[^\n]*", o)
-            c.cov["quote_int_overflow_1GiB"] = ("reproduced: " + m.group(0).strip()) if m else ("not reproduced: " + o.strip()[-200:])
-            if m and any(kf.get("id") == "C20-quote-int" for kf in nqlib.known_findings(PROP)):
-                c.violation("quote.c doit(): signed int counter overflows for a 2^30-byte address (known finding)",
-                            {"failing_case": {"in": "quote() of 1073741824 bytes of 0x22"}, "raw": m.group(0), "id": "C20-quote-int"}, found_input=True)
+            rc, o = sh(qb, cwd=s.dir, env={"ASAN_OPTIONS": "detect_leaks=0:max_allocation_size_mb=8000"}, timeout=900)
+            m = re.search(r"[^\n]*(runtime error:|ERROR: AddressSanitizer)[^\n]*", o)
+            r = re.search(r"BIG quote (\d+) x 22 : (-?\d+) (\d+) (\d+) (\d)", o)
+            good = (not m) and r and r.group(2) == "1" and int(r.group(3)) == 2 * int(r.group(1)) + 2 and int(r.group(3)) <= int(r.group(4)) and r.group(5) == "1"
+            c.cov["quote_1GiB"] = "ok: " + r.group(0) if good else "FAILS: " + (m.group(0).strip() if m else o.strip()[-300:])
+            c.cov["evaluations_big"] = 1
+            if not good:
+                big_fail = (m.group(0).strip() if m else o.strip()[-300:])
         except Exception as ex:
-            c.cov["quote_int_overflow_1GiB"] = "not run: " + str(ex)[:300]
+            c.cov["quote_1GiB"] = "not run: " + str(ex)[:300]
+            errors.append("c20_quote_big: " + str(ex)[:500])
 
     c.cov["evaluations"] = int(stats.get("cases", 0))
     c.cov["distinct_nontrivial"] = int(stats.get("distinct_nontrivial", 0))
@@ -239,7 +242,7 @@ def main():
     c.cov["input_distribution"] = {k: v for k, v in stats.items() if k not in ("cases", "distinct_nontrivial", "disagree", "oracle_fail")}
     c.cov["explanation"] = (
         "PARTIAL proof. Proved (Nq/Props/C20.lean, all lengths, no bound): the length/index arithmetic of gen_alloc readyplus/ready/append, stralloc_catb/copyb, "
-        "quote.c doit() (with its int-overflow boundary stated), substdio put/bput/flush/putflush/feed/get with the stream laws, the fixed buffers of qmail-qmqpd, "
+        "quote.c doit()/quote_need() (all lengths; counter types read from the source), substdio put/bput/flush/putflush/feed/get with the stream laws, the fixed buffers of qmail-qmqpd, "
         "qmail-qmtpd, qmail-getpw, qmail.c errstr, spawn.c slots/truncation, qmail-send REPORTMAX, qmail-pop3d msgno, and dns.c findname/findip/findmx/resolve. "
         "NOT proved: absence of undefined behaviour elsewhere in the compiled C (every parser's own loops, pointer aliasing, signal handlers, libc/libresolv); that part "
         "is covered only by the sanitised executions counted in 'evaluations' (kinds T.*, P.*, and the ASan/UBSan instrumentation of all kinds) and by the sanitised "
@@ -251,10 +254,16 @@ def main():
         "res_query/res_search return -1 or a length between 12 (HFIXEDSZ) and the buffer size (glibc: shorter datagrams are discarded with EMSGSIZE); dn_expand never reports a name that extends beyond the message (checked on every call the harness logs)",
         "fmt_ulong writes at most 20 digits (64-bit unsigned long)",
         "whole programs run with control files me/rcpthosts/databytes/localiphost only, a stand-in qmail-queue, a three-message maildir; qmail-send, qmail-remote, qmail-lspawn/rspawn, qmail-clean are exercised by the sanitised harnesses of C03/C04/C09/C11/C14/C18, not here",
-        "quote.c doit(): for an address of >= 2^30 bytes the signed counter j overflows (theorem C20_quote_int_overflow); no surface reachable by an untrusted peer delivers such an address (SMTP 900-byte / QMTP-QMQP 1000-byte / qmail-queue 1003-byte caps), it needs a local user feeding qmail-inject more than 1 GiB in one header address; inputs of that size are not executed",
+        "quote.c doit()/quote_need() use unsigned counters (26e354b; the translator checks the declarations): the 1 GiB input that overflowed the former signed counters is executed in the thorough tier and whenever an obligation is broken, not in the quick tier",
     ]
 
-    if oracle:
+    if big_fail and not oracle:
+        c.violation("property oracle fails on the implementation's output (quote() of a 2^30-byte address)",
+                    {"failing_case": {"kind": "quote-big", "in": "quote(saout,sain) with sain = 1073741824 bytes 0x22 (harness/c20_quote_big.c)"},
+                     "raw": big_fail, "sanitizer_report": big_fail,
+                     "how_to_replay": "build harness/c20_quote_big.c against the sanitised tree (quote.o stralloc.a str.a error.a) and run it"},
+                    found_input=True)
+    elif oracle:
         first = shortest(oracle)
         rep = ""
         for o in outs:
